@@ -77,6 +77,7 @@ func init() {
 		mk("order-concurrent", 400, 8000, false, feedOrderScenario),
 		mk("inversion-probe", 4, 20, false, inversionScenario),
 		mk("order-concurrent-race", 80, 1600, true, feedOrderScenario),
+		sup.Part{Name: "stale-handle-after-drop", Timeout: 60 * time.Second, Count: func(t string) int { return tierN(t, 60, 1200) }, Run: staleHandleScenario},
 	)
 	sup.Register(&sup.Check{
 		Prop: "C08", Level: "exploration",
